@@ -23,19 +23,19 @@ type obsRec struct {
 }
 
 type pairEvent struct {
-	Ev     string   `json:"ev"`
-	Kind   string   `json:"kind"` // mode: long-lived vs persisted; insert: with vs without refused inputs
-	Sid    string   `json:"sid"`
-	Store  string   `json:"store"`
-	Inputs []string `json:"inputs"`
-	Extra  []string `json:"extra"` // history b, when it differs (refused inputs inserted)
-	A      []obsRec `json:"a"`
-	B      []obsRec `json:"b"`
-	ModeA  string   `json:"modea"`
-	ModeB  string   `json:"modeb"`
-	Partner string  `json:"partner"` // reuse pairs: the session that shared the persister
-	Flush  bool     `json:"flush"`
-	After  string   `json:"after"` // kept-persister pairs: class (ok | bad | long) of the partner's request that directly preceded this session's first request
+	Ev      string   `json:"ev"`
+	Kind    string   `json:"kind"` // mode: long-lived vs persisted; insert: with vs without refused inputs
+	Sid     string   `json:"sid"`
+	Store   string   `json:"store"`
+	Inputs  []string `json:"inputs"`
+	Extra   []string `json:"extra"` // history b, when it differs (refused inputs inserted)
+	A       []obsRec `json:"a"`
+	B       []obsRec `json:"b"`
+	ModeA   string   `json:"modea"`
+	ModeB   string   `json:"modeb"`
+	Partner string   `json:"partner"` // reuse pairs: the session that shared the persister
+	Flush   bool     `json:"flush"`
+	After   string   `json:"after"` // kept-persister pairs: class (ok | bad | long) of the partner's request that directly preceded this session's first request
 }
 
 func hpick(seed int64, req, call, n int) int {
